@@ -50,6 +50,7 @@ type HashCase struct {
 	Index      int    `json:"index"`
 	Challenges int    `json:"challenges"`
 	Bindings   int    `json:"bindings"`
+	Dirty      bool   `json:"dirty"`
 }
 
 type HashRes struct {
@@ -120,7 +121,28 @@ func chunkPoints(chunking string, n, B int) (cuts []int, empties bool) {
 	return
 }
 
+func newBinHasher(api frontend.API, family string) (hash.BinaryHasher, error) {
+	switch family {
+	case "sha256":
+		return sha2.New(api)
+	case "ripemd160":
+		return ripemd160.New(api)
+	case "sha3-256":
+		return sha3.New256(api)
+	case "sha3-384":
+		return sha3.New384(api)
+	case "sha3-512":
+		return sha3.New512(api)
+	case "keccak256":
+		return sha3.NewLegacyKeccak256(api)
+	case "keccak512":
+		return sha3.NewLegacyKeccak512(api)
+	}
+	return nil, fmt.Errorf("unknown family %q", family)
+}
+
 type BinHashCircuit struct {
+	Prefix   []uints.U8 // digest of the first half (chunking "reuse")
 	In       []uints.U8
 	Len      frontend.Variable
 	Expected []uints.U8 `gnark:",public"`
@@ -167,6 +189,18 @@ func (c *BinHashCircuit) Define(api frontend.API) error {
 	chunking := k.Chunking
 	if k.Kind == "varlen" {
 		chunking = []string{"one", "split1", "splitB", "empties"}[k.ID%4]
+	}
+	if chunking == "reuse" && len(c.In) > 1 {
+		// a first hasher digests a proper prefix taken as a sub-slice of the input (spare capacity behind it)
+		h1, err := newBinHasher(api, k.Family)
+		if err != nil {
+			return err
+		}
+		h1.Write(c.In[:len(c.In)/2])
+		d1 := h1.Sum()
+		for i := range d1 {
+			uapi.ByteAssertEq(d1[i], c.Prefix[i])
+		}
 	}
 	cuts, empties := chunkPoints(chunking, len(c.In), hashBlock(k.Family))
 	prev := 0
@@ -278,6 +312,7 @@ func (c *MerkleCircuit) Define(api frontend.API) error {
 type TranscriptCircuit struct {
 	Bind       [][]frontend.Variable
 	Challenges []frontend.Variable `gnark:",public"`
+	Dirty      bool                `gnark:"-"`
 }
 
 func (c *TranscriptCircuit) Define(api frontend.API) error {
@@ -290,6 +325,11 @@ func (c *TranscriptCircuit) Define(api frontend.API) error {
 		ids[i] = fmt.Sprintf("ch%d", i)
 	}
 	ts := fscircuit.NewTranscript(api, &h, ids)
+	if c.Dirty {
+		// the circuit's own use of the shared hasher must not leak into the challenges
+		h.Write(c.Challenges[0], 7)
+		api.AssertIsDifferent(h.Sum(), 0)
+	}
 	for i := range ids {
 		if err := ts.Bind(ids[i], c.Bind[i]); err != nil {
 			return err
@@ -430,10 +470,13 @@ func HashReplay(args common.Args, out *common.Out) error {
 			nh.Write(msg[:c.Len])
 			digest := nh.Sum(nil)
 			mk := func() frontend.Circuit {
-				return &BinHashCircuit{In: make([]uints.U8, total), Expected: make([]uints.U8, len(digest)), Case: *c}
+				return &BinHashCircuit{In: make([]uints.U8, total), Expected: make([]uints.U8, len(digest)), Prefix: make([]uints.U8, len(digest)), Case: *c}
 			}
+			ph := nativeBinary(c.Family)
+			ph.Write(msg[:total/2])
+			prefixDigest := ph.Sum(nil)
 			assign := func(d []byte) *BinHashCircuit {
-				return &BinHashCircuit{In: uints.NewU8Array(msg), Len: c.Len, Expected: uints.NewU8Array(d)}
+				return &BinHashCircuit{In: uints.NewU8Array(msg), Len: c.Len, Expected: uints.NewU8Array(d), Prefix: uints.NewU8Array(prefixDigest)}
 			}
 			wrong := append([]byte(nil), digest...)
 			wrong[c.ID%len(wrong)] ^= 1 << uint(c.ID%8)
@@ -555,7 +598,7 @@ func HashReplay(args common.Args, out *common.Out) error {
 			w := new(big.Int).Add(chs[len(chs)-1].(*big.Int), big.NewInt(1))
 			wrong[len(wrong)-1] = w.Mod(w, mod)
 			mk := func() frontend.Circuit {
-				t := &TranscriptCircuit{Bind: make([][]frontend.Variable, c.Challenges), Challenges: make([]frontend.Variable, c.Challenges)}
+				t := &TranscriptCircuit{Bind: make([][]frontend.Variable, c.Challenges), Challenges: make([]frontend.Variable, c.Challenges), Dirty: c.Dirty}
 				for j := range t.Bind {
 					t.Bind[j] = make([]frontend.Variable, c.Bindings)
 				}
